@@ -1,7 +1,9 @@
 """C04 — load conservation and drain-then-close.
 component heap4:     real HeapBalancerSink vs Model/Heap.lean, spec `specC04` (Adapter/Heap.lean);
 component aperture4: real ApertureBalancerSink / HeapBalancerSink behind base.py's gate (they inherit __Put and
-                     _RemoveSink) vs Model/Aperture.lean, spec `specC04A` (Adapter/ApertureHeap.lean).
+                     _RemoveSink) vs Model/Aperture.lean, spec `specC04A` (Adapter/ApertureHeap.lean).  A request
+                     that timed out while it waited for the open result (`getd` … `expire k`, real _TimeoutHelper) has
+                     completed: if it is dispatched afterwards it is not outstanding, a load booked for it is a failure.
 Every case names its own component."""
 import heaprun
 import lbrun
